@@ -88,3 +88,19 @@ Definition SUMB : Z := 4611686018427387904.      (* 2^62 *)
 Definition rbox (r : rect) : Prop :=
   - COORD <= minX r /\ minX r <= maxX r /\ maxX r <= COORD /\ - COORD <= minY r /\ minY r <= maxY r /\ maxY r <= COORD.
 Definition inbox (x : Z) : Prop := - COORD <= x <= COORD.
+
+(* ---------------------------------------------------------------- the constructor DensityGrid(binSize, regions)
+   density_grid.cpp:18-23: computePlacementArea (min/max only), updateBinsToSize -> updateBinsToNumber
+   (computeSubdivisions twice, updateBinCenters, updateBinCapacity()), updateBinCapacity(regions) *)
+Require Import CV.SubdivMachine.
+Definition grid_vals (binSize : Z) (regions : list rect) : list (cty * Z) :=
+  let a := placement_area regions in
+  let nx := nb_bins (rwidth a) binSize in
+  let ny := nb_bins (rheight a) binSize in
+  let lx := subdivisions (minX a) (maxX a) nx in
+  let ly := subdivisions (minY a) (maxY a) ny in
+  nb_bins_vals a binSize
+  ++ subdiv_vals (minX a) (maxX a) nx ++ subdiv_vals (minY a) (maxY a) ny
+  ++ centers_vals lx ++ centers_vals ly
+  ++ cap0_vals lx ly
+  ++ capacity_vals lx ly regions.
